@@ -1,6 +1,7 @@
 package ir
 
 import (
+	"sync"
 	"fmt"
 	"go/constant"
 	"go/token"
@@ -22,6 +23,9 @@ func StaticCallee(c ssa.CallInstruction) *ssa.Function {
 	}
 	fn := c.Common().StaticCallee()
 	if fn == nil {
+		fn = fieldCallee(c)
+	}
+	if fn == nil {
 		return nil
 	}
 	if o := fn.Origin(); o != nil {
@@ -30,6 +34,110 @@ func StaticCallee(c ssa.CallInstruction) *ssa.Function {
 	return fn
 }
 
+// fieldCallee devirtualises a call through a function-valued struct field: when the field is unexported (only its own
+// package can write it) and every store to it in that package stores one and the same declared function, a call of
+// the loaded field value calls that function (an injected clock `now func() time.Time` that is only ever time.Now).
+// Test files are not part of the analysed build, so what tests inject does not count.
+func fieldCallee(c ssa.CallInstruction) *ssa.Function {
+	cc := c.Common()
+	if cc.IsInvoke() {
+		return nil
+	}
+	ld, ok := cc.Value.(*ssa.UnOp)
+	if !ok || ld.Op != token.MUL {
+		return nil
+	}
+	fa, ok := ld.X.(*ssa.FieldAddr)
+	if !ok {
+		return nil
+	}
+	f := FieldOf(fa)
+	if f == nil || f.Exported() || f.Pkg() == nil || c.Parent() == nil {
+		return nil
+	}
+	fieldCalleeMu.Lock()
+	defer fieldCalleeMu.Unlock()
+	prog := c.Parent().Prog
+	key := fieldCalleeKey{prog, f}
+	if fn, done := fieldCalleeCache[key]; done {
+		return fn
+	}
+	fieldCalleeCache[key] = nil
+	pkg := prog.Package(f.Pkg())
+	if pkg == nil {
+		return nil
+	}
+	var target *ssa.Function
+	okAll, n := true, 0
+	var visit func(fn *ssa.Function)
+	visit = func(fn *ssa.Function) {
+		for _, b := range fn.Blocks {
+			for _, in := range b.Instrs {
+				switch x := in.(type) {
+				case *ssa.Store:
+					if a, isFA := x.Addr.(*ssa.FieldAddr); isFA && FieldOf(a) == f {
+						n++
+						v, isFn := x.Val.(*ssa.Function)
+						if !isFn || (target != nil && target != v) {
+							okAll = false
+						} else {
+							target = v
+						}
+					}
+				case *ssa.FieldAddr:
+					// the address of the field used for anything but a load or a store: it may be written elsewhere
+					if FieldOf(x) == f && x.Referrers() != nil {
+						for _, r := range *x.Referrers() {
+							switch y := r.(type) {
+							case *ssa.Store:
+								if y.Addr != ssa.Value(x) {
+									okAll = false
+								}
+							case *ssa.UnOp, *ssa.DebugRef:
+							default:
+								okAll = false
+							}
+						}
+					}
+				}
+			}
+		}
+		for _, an := range fn.AnonFuncs {
+			visit(an)
+		}
+	}
+	for _, m := range pkg.Members {
+		switch x := m.(type) {
+		case *ssa.Function:
+			visit(x)
+		case *ssa.Type:
+			for _, t := range []types.Type{x.Type(), types.NewPointer(x.Type())} {
+				ms := prog.MethodSets.MethodSet(t)
+				for i := 0; i < ms.Len(); i++ {
+					if mf := prog.MethodValue(ms.At(i)); mf != nil && mf.Pkg == pkg {
+						visit(mf)
+					}
+				}
+			}
+		}
+	}
+	if !okAll || n == 0 || target == nil {
+		return nil
+	}
+	fieldCalleeCache[key] = target
+	return target
+}
+
+type fieldCalleeKey struct {
+	prog *ssa.Program
+	f    *types.Var
+}
+
+var (
+	fieldCalleeMu    sync.Mutex
+	fieldCalleeCache = map[fieldCalleeKey]*ssa.Function{}
+)
+
 // CalleeObj returns the types.Func called (static or interface method), normalised to
 // its origin; nil for calls of function values.
 func CalleeObj(c ssa.CallInstruction) *types.Func {
@@ -37,7 +145,11 @@ func CalleeObj(c ssa.CallInstruction) *types.Func {
 	if cc.IsInvoke() {
 		return cc.Method.Origin()
 	}
-	if fn := cc.StaticCallee(); fn != nil {
+	fn := cc.StaticCallee()
+	if fn == nil {
+		fn = fieldCallee(c)
+	}
+	if fn != nil {
 		if o := fn.Origin(); o != nil {
 			fn = o
 		}
